@@ -1,0 +1,11 @@
+//go:build verif
+
+package pilosa
+
+// Access wrappers for the message-encoding check (property C27). No behaviour, only access.
+
+// VerifGetMessage returns the empty message for a cluster-message type byte.
+func VerifGetMessage(typ byte) Message { return getMessage(typ) }
+
+// VerifGetMessageType returns the type byte MarshalInternalMessage prefixes to m.
+func VerifGetMessageType(m Message) byte { return getMessageType(m) }
